@@ -606,7 +606,11 @@ func ruleCleanSwap(c *eng.Ctx) {
 		if len(rb) == 1 {
 			pos = c.Pos(rb[0].(ssa.Instruction))
 			g, _ := eng.GuardedBy(fn, rb[0].(ssa.Instruction), more)
-			sl, isSl := rb[0].Common().Args[1].(*ssa.Slice)
+			fromArg := eng.ArgOf(rb[0].Common(), "from")
+			if fromArg == nil {
+				fromArg = rb[0].Common().Args[1]
+			}
+			sl, isSl := fromArg.(*ssa.Slice)
 			okRb = okRb && g && isSl && sl.High == nil && sl.Low != nil && eng.Len(eng.Load(segF, nil))(sl.Low) && eng.Load(segF, nil)(sl.X)
 			// the swapped-in list is the rebased one on that path
 			okStore := false
